@@ -22,9 +22,12 @@ CAP = 2 ** 30
 TOL_A = 1.0e-6          # the statement's tolerance for the inverses (Angstrom)
 UNIT_A = 1.0e-9         # one discrepancy unit = TOL_A / 1000
 FACTOR = {'A': 1.0, 'nm': 10.0, 'um': 1.0e4}
-SCALAR_KINDS = ('float', 'npfloat', 'array0', 'q0A', 'q0nm', 'q0um', 'pyint', 'npint', 'npint32', 'iarray0', 'npfloat32')
-ZERO_D = ('npfloat', 'array0', 'q0A', 'q0nm', 'q0um', 'npint', 'npint32', 'iarray0', 'npfloat32')
-INTEGER_KINDS = ('pyint', 'npint', 'npint32', 'iarray0', 'iarray', 'iarray32', 'qAi', 'qnmi')
+SCALAR_KINDS = ('float', 'npfloat', 'array0', 'q0A', 'q0nm', 'q0um', 'pyint', 'npint', 'iarray0', 'npfloat32')
+ZERO_D = ('npfloat', 'array0', 'q0A', 'q0nm', 'q0um', 'npint', 'iarray0', 'npfloat32')
+INTEGER_KINDS = ('pyint', 'npint', 'iarray0', 'iarray', 'qAi', 'qnmi')
+WIDTH_KINDS = ('npint', 'iarray0', 'iarray', 'qAi', 'qnmi')                     # FluxConv!WidthKinds
+WIDTHS = ('int64', 'int32', 'int16', 'uint16', 'uint8')                          # FluxConv!Widths
+WMAX = {'int64': 2 ** 62, 'int32': 2 ** 31 - 1, 'int16': 32767, 'uint16': 65535, 'uint8': 255, 'na': 2 ** 62}
 SINGLE_KINDS = ('npfloat32', 'f32array')
 SINGLE_ULPS = 8         # FluxConv!SingleUlps
 FILTER_DIR = os.path.join(core.PYDL_SRC, 'pydl', 'pydlutils', 'data', 'filters')
@@ -84,10 +87,19 @@ def lay(a, layout, fill=12345):
     raise core.MachineryError('unknown layout ' + layout)
 
 
-def make_input(kind, lams, layout='plain'):
-    """Spec value (kind, wavelengths in Angstrom, memory layout) -> the real argument."""
-    x = _make_input(kind, list(lams) + ([12345.0 if numtype(kind) != 'integer-nm' else 12340.0] * len(lams)
-                                        if layout == 'strided' and kind in ('qA', 'qnm', 'qum', 'qAi', 'qnmi') else []))
+def widths_fitting(kind, lams):
+    """the integer widths (FluxConv!Widths) that hold these wavelengths for this kind ('na' if the kind has none)."""
+    if kind not in WIDTH_KINDS:
+        return ('na',)
+    top = max(lams) / (10.0 if kind == 'qnmi' else 1.0)
+    return tuple(w for w in WIDTHS if top <= WMAX[w])
+
+
+def make_input(kind, lams, layout='plain', width='na'):
+    """Spec value (kind, wavelengths in Angstrom, memory layout, integer width) -> the real argument."""
+    fillv = 12340.0 if WMAX[width] >= 12340 else 120.0
+    x = _make_input(kind, list(lams) + ([fillv] * len(lams)
+                                        if layout == 'strided' and kind in ('qA', 'qnm', 'qum', 'qAi', 'qnmi') else []), width)
     if layout == 'plain':
         return x
     if kind in SCALAR_KINDS or layout not in layouts_of(kind):
@@ -101,11 +113,12 @@ def make_input(kind, lams, layout='plain'):
         y[0::2] = x[:n]          # interleave the wanted values with the filler, then view every second element
         y[1::2] = x[n:]
         return y[::2]
-    return lay(x, layout)
+    return lay(x, layout, fill=120)
 
 
-def _make_input(kind, lams):
+def _make_input(kind, lams, width='na'):
     u = _u()
+    idt = np.dtype(width if width != 'na' else 'int64')
     if kind == 'float':
         return float(lams[0])
     if kind == 'npfloat':
@@ -122,21 +135,19 @@ def _make_input(kind, lams):
             raise core.MachineryError('non-integer wavelength for integer kind %s: %r' % (kind, lams))
         if kind == 'pyint':
             return ints[0]
-        if kind == 'npint':
-            return np.int64(ints[0])
-        if kind == 'npint32':
-            return np.int32(ints[0])
-        if kind == 'iarray0':
-            return np.array(ints[0])
-        if kind == 'iarray':
-            return np.array(ints, dtype=np.int64)
-        if kind == 'iarray32':
-            return np.array(ints, dtype=np.int32)
-        if kind == 'qAi':
-            return np.array(ints, dtype=np.int64) * u.AA
-        if any(i % 10 for i in ints):
+        if kind == 'qnmi' and any(i % 10 for i in ints):
             raise core.MachineryError('qnmi needs whole nanometres: %r' % (lams,))
-        return np.array([i // 10 for i in ints], dtype=np.int64) * u.nm
+        if kind != 'pyint' and max(ints) // (10 if kind == 'qnmi' else 1) > WMAX[width]:
+            raise core.MachineryError('wavelengths %r do not fit %s' % (lams, width))
+        if kind == 'npint':
+            return idt.type(ints[0])
+        if kind == 'iarray0':
+            return np.array(ints[0], dtype=idt)
+        if kind == 'iarray':
+            return np.array(ints, dtype=idt)
+        if kind == 'qAi':
+            return np.array(ints, dtype=idt) * u.AA
+        return np.array([i // 10 for i in ints], dtype=idt) * u.nm
     if kind in SINGLE_KINDS:
         if any(float(np.float32(v)) != v for v in lams):
             raise core.MachineryError('wavelength not representable in float32: %r' % (lams,))
@@ -229,7 +240,7 @@ def _f32(v):
     return float(np.float32(v))
 
 
-def class_value(rng, cls, angstrom_kind, nt='double'):
+def class_value(rng, cls, angstrom_kind, nt='double', vmax=2 ** 62):
     """A wavelength (Angstrom) of the given class that the kind can hold.  Callers in nm / um keep 1e-6 A away
     from the guard (their unit conversion cannot resolve less; the spec's class "at" covers that band)."""
     if cls == 'at':
@@ -237,10 +248,14 @@ def class_value(rng, cls, angstrom_kind, nt='double'):
     if nt == 'integer':
         pool = ([100, 912, 1216, 1999, 1999, rng.randint(100, 1999)] if cls == 'below' else
                 [2001, 2001, 3000, 5000, 6563, 10000, 299999, 300000, rng.randint(2001, 300000), rng.randint(2001, 12000)])
+        if vmax < 2001:
+            pool = [100, 121, vmax, rng.randint(100, vmax)] if cls == 'below' else []
+        pool = [v for v in pool if v <= vmax]
         return float(rng.choice(pool))
     if nt == 'integer-nm':
         pool = ([100, 910, 1220, 1990, 1990, 10 * rng.randint(10, 199)] if cls == 'below' else
                 [2010, 2010, 3000, 5000, 6560, 10000, 300000, 10 * rng.randint(201, 30000), 10 * rng.randint(201, 1200)])
+        pool = [v for v in pool if v // 10 <= vmax]
         return float(rng.choice(pool))
     if nt == 'single':
         if cls == 'below':
@@ -286,7 +301,7 @@ def classify(kind, cls_first, exc):
 def run_wave_case(c, exp, lams):
     """Execute one TLC case with concrete wavelengths; list of mismatch strings (empty = conforms)."""
     kind, fn, layout = c['kind'], c['fn'], c.get('layout', 'plain')
-    x = make_input(kind, lams, layout)
+    x = make_input(kind, lams, layout, c.get('width', 'na'))
     a_native, _, _, _ = native(x)
     o = call_fn(fn, x, rows2=(layout == 'transposed2d'))
     bad = []
@@ -333,9 +348,19 @@ def ab_level(form, v):
 def run_ab_case(c, exp):
     from pydl.photoop.sdssio import sdssflux2ab
     form, b, m0 = c['form'], c['band'], c['m0']
-    a = lay(np.full((2, 5), ab_value(form, m0)), c.get('layout', 'plain'), fill=1.0)
+    val = ab_value(form, m0)
+    nt = c.get('ntype', 'float64')
+    if nt != 'float64':
+        if abs(val - round(val)) > 1e-9:
+            raise core.MachineryError('AB case %r: value %r is not integral' % (c, val))
+        a = np.full((2, 5), int(round(val)), dtype=np.dtype(nt))
+    else:
+        a = lay(np.full((2, 5), val), c.get('layout', 'plain'), fill=1.0)
     try:
         r = sdssflux2ab(a, magnitude=(form == 'mag'), ivar=(form == 'ivar'))
+    except TypeError as ex:
+        # an integer-typed array may be refused with a clear TypeError (ExpectedAB.rejectok), nothing else may
+        return [] if exp.get('rejectok') else ['raised %s: %s' % (type(ex).__name__, ex)]
     except Exception as ex:
         return ['raised %s: %s' % (type(ex).__name__, ex)]
     r = np.asarray(r)
@@ -372,8 +397,8 @@ def gen_wave_history(seed, idx):
         kinds = rng.sample(['qA', 'float', 'float', 'npfloat' if zerod else 'qA',
                             'array0' if zerod else 'float', 'q0A' if zerod else 'qA'], 3)
     else:
-        kinds = rng.sample(['iarray', 'iarray32', 'f32array', 'qAi', 'qnmi', 'pyint', 'float',
-                            'npint' if zerod else 'iarray', 'npint32' if zerod else 'iarray32',
+        kinds = rng.sample(['iarray', 'iarray', 'f32array', 'qAi', 'qnmi', 'pyint', 'float',
+                            'npint' if zerod else 'iarray', 'npint' if zerod else 'iarray',
                             'iarray0' if zerod else 'f32array', 'npfloat32' if zerod else 'f32array'], 4)
     nt = 'double' if template != 2 else 'integer-nm' if 'qnmi' in kinds else 'integer'
     lams = []
@@ -384,7 +409,7 @@ def gen_wave_history(seed, idx):
     vals = list(lams)
     calls = []
 
-    def record(fn, kind, x, argv, layout):
+    def record(fn, kind, x, argv, layout, width='na'):
         o = call_fn(fn, x, rows2=(layout == 'transposed2d'))
         resv = []
         if not o['raised']:
@@ -398,7 +423,7 @@ def gen_wave_history(seed, idx):
                 vals.append(v * f)
                 resv.append(len(vals))
         calls.append({'fn': fn, 'kind': kind, 'arg': list(argv), 'res': resv, 'raised': o['raised'], 'kept': o['kept'],
-                      'form': o['form'], 'exc': o['exc'], 'layout': layout})
+                      'form': o['form'], 'exc': o['exc'], 'layout': layout, 'width': width})
         return o, resv
 
     base = list(range(1, n + 1))
@@ -412,8 +437,9 @@ def gen_wave_history(seed, idx):
     for kind, argv in plan:
         for fn, back in (('airtovac', 'vactoair'), ('vactoair', 'airtovac')):
             layout = rng.choice(layouts_of(kind))          # the same values in a seed-rotated memory layout
-            x = make_input(kind, [lams[v - 1] for v in argv], layout)
-            o, resv = record(fn, kind, x, argv, layout)
+            width = rng.choice(widths_fitting(kind, [lams[v - 1] for v in argv]))      # ... and integer width
+            x = make_input(kind, [lams[v - 1] for v in argv], layout, width)
+            o, resv = record(fn, kind, x, argv, layout, width)
             if not o['raised'] and len(resv) == len(argv):
                 # the answer object itself is handed back (for transposed2d: its 2-d answer)
                 record(back, kind, o['obj'], resv, layout if layout == 'transposed2d' else 'plain')
@@ -443,17 +469,33 @@ def gen_ab_history(seed, idx):
     obs = []
     exc = ''
     layout = str(rng.choice(AB_LAYOUTS))
+    # every fourth history: integral values handed over in an integer type
+    intinput = idx % 4 == 3
+    ntype = 'float64'
+    arg = a
+    if intinput:
+        ntype = str(rng.choice(WIDTHS))
+        hi = min(WMAX[ntype], 30000)
+        a = rng.integers(1 if form != 'mag' else 0, (36 if form == 'mag' else hi + 1), (rows, 5)).astype(float)
+        arg = a.astype(np.dtype(ntype))
+    typeerror = raised = False
     try:
-        r = np.asarray(sdssflux2ab(lay(a.copy(), layout, fill=1.0), magnitude=(form == 'mag'), ivar=(form == 'ivar')), dtype=float)
+        r = np.asarray(sdssflux2ab(lay(arg.copy(), layout, fill=1), magnitude=(form == 'mag'), ivar=(form == 'ivar')), dtype=float)
         if r.shape != a.shape:
             raise ValueError('shape %r' % (r.shape,))
+    except TypeError as ex:
+        exc = type(ex).__name__ + ': ' + str(ex)[:100]
+        typeerror = True
+        r = None
     except Exception as ex:
         exc = type(ex).__name__ + ': ' + str(ex)[:100]
+        raised = True
         r = None
     for row in range(rows):
         for b in range(5):
             if r is None:
-                obs.append({'form': form, 'band': b + 1, 'shift': CAP, 'resid': CAP})
+                if not (typeerror and intinput):
+                    obs.append({'form': form, 'band': b + 1, 'shift': CAP, 'resid': CAP})
                 continue
             if form == 'mag':
                 m = (r[row, b] - a[row, b]) * 1000.0
@@ -465,7 +507,8 @@ def gen_ab_history(seed, idx):
             else:
                 k = int(round(m))
                 obs.append({'form': form, 'band': b + 1, 'shift': k, 'resid': min(CAP, int(math.ceil(abs(m - k) * 1e6)))})
-    return {'type': 'ab', 'gen': {'type': 'ab', 'idx': idx, 'seed': seed}, 'form': form, 'rows': rows, 'layout': layout, 'exc': exc, 'obs': obs}
+    return {'type': 'ab', 'gen': {'type': 'ab', 'idx': idx, 'seed': seed}, 'form': form, 'rows': rows, 'layout': layout, 'ntype': ntype,
+            'intinput': bool(intinput), 'typeerror': bool(typeerror), 'raised': bool(raised), 'exc': exc, 'obs': obs}
 
 
 # ------------------------------------------------------------------ code -> spec: filter_thru histories
@@ -523,7 +566,21 @@ def gen_filter_history(seed, idx):
         wave[t] = 10.0 ** ll
     sup = band_support()
     sliver = []
-    for t in range(0 if piecewise else nt):
+    # every eighth history: integer-valued wavelengths (whole Angstrom, linear in pixel) handed over in an integer
+    # type that holds them (fixed within the history: the statement's laws relate calls on ONE wavelength solution)
+    intwave = (not piecewise) and idx % 8 == 4
+    wdtype = 'float64'
+    if intwave:
+        cfg = 'img' if (idx // 8) % 2 == 0 else 'img+air'
+        toair = cfg.endswith('+air')
+        for t in range(nt):
+            k = int(rng.integers(2, 21))
+            l0 = int(rng.integers(2900, 8001))
+            wave[t] = l0 + k * pix
+            if rng.random() < 0.3:
+                wave[t] = wave[t][::-1].copy()
+        wdtype = str(rng.choice([w for w in ('int16', 'uint16', 'int32', 'int64') if wave.max() <= WMAX[w]]))
+    for t in range(0 if (piecewise or intwave) else nt):
         if rng.random() < 0.5:
             # SLIVER: the first / last pixels reach only 1..20 A into the edge of one band's response
             bnd = 'ugriz'[int(rng.integers(0, 5))]
@@ -572,7 +629,9 @@ def gen_filter_history(seed, idx):
         if good.size < 2:
             mask[t, :2] = 0
     m = mask != 0
-    # fluxes
+    # fluxes.  Every third history is on an integer grid (counts): all flux values integral and non-negative, so
+    # that every call can hand its flux over in a seed-rotated numeric type (float64 or any integer width that fits)
+    intgrid = idx % 3 == 0
     smooth = 2.0 + np.sin(np.outer(rng.uniform(0.5, 3.0, nt), pix / nx * 6.0) + rng.uniform(0, 6, (nt, 1)))
     x = smooth * rng.uniform(0.5, 20.0) + rng.normal(0, 0.3, (nt, nx)) + rng.choice([0.0, -5.0])
     y = rng.uniform(-3.0, 8.0, (nt, nx))
@@ -585,12 +644,22 @@ def gen_filter_history(seed, idx):
     xm[m] = {'big': 1e30, 'nan': np.nan, 'rand': 0.0}[garbage]
     if garbage == 'rand':
         xm[m] = rng.uniform(-1e6, 1e6, int(m.sum()))
+    if intgrid:
+        x = np.clip(np.rint(smooth * rng.uniform(5.0, 60.0) + rng.normal(0, 3.0, (nt, nx))), 0, 200)
+        y = rng.integers(0, 51, (nt, nx)).astype(float)
+        a, b = int(rng.choice([1, 2, 3])), int(rng.choice([1, 5]))
+        zf = a * x + b * y
+        cval = float(rng.choice([1.0, 3.0, 7.0, 200.0]))
+        cf = np.full((nt, nx), cval)
+        xm = x.copy()
+        garbage = rng.choice(['big', 'rand'])
+        xm[m] = 255.0 if garbage == 'big' else rng.integers(0, 256, int(m.sum())).astype(float)
     fl = [x, y, zf, cf, xm]
     # indicator-like fluxes (piecewise solutions only): h on a window, 0 elsewhere; the windows partition the
     # spectrum (16 narrow, 2 wide), two complements, two sums of neighbouring windows
     ind = []
     lin = [{'z': 3, 'a': a, 'x': 1, 'b': b, 'y': 2}]
-    hval = float(rng.choice([1.0, 3.0, 0.25]))
+    hval = float(rng.choice([1.0, 3.0, 0.25] if not intgrid else [1.0, 3.0]))
     if piecewise:
         def window(lo_, hi_):
             w = np.zeros((nt, nx))
@@ -638,14 +707,22 @@ def gen_filter_history(seed, idx):
                 continue
             # the same values in seed-rotated memory layouts (flux image, wavelength image, mask)
             lf, lw, lm = (str(v) for v in rng.choice(AB_LAYOUTS, 3))
-            arg = lay(f.copy(), lf, fill=0.0)
+            # ... and numeric types: integral fluxes in float64 or any integer width that holds them; the mask in any
+            # integer type or bool (non-zero = masked)
+            ftype = 'float64'
+            if intgrid and f.min() >= 0:
+                ftype = str(rng.choice(['float64'] + [w for w in WIDTHS if f.max() <= WMAX[w]]))
+            mtype = str(rng.choice(['int32', 'int64', 'int16', 'uint8', 'int8', 'bool']))
+            arg = lay(f.astype(np.dtype(ftype)), lf, fill=0)
             kwc = dict(kw)
             if 'waveimg' in kwc:
-                kwc['waveimg'] = lay(wave.copy(), lw, fill=5000.0)
+                kwc['waveimg'] = lay(wave.astype(np.dtype(wdtype)), lw, fill=5000)
+            marg = mask if mtype in ('int32', 'int64') else (mask != 0)
             call = {'flux': k + 1, 'masked': masked, 'raised': False, 'shapeok': True, 'res': 1, 'exc': '',
-                    'layout': [lf, lw if 'waveimg' in kwc else 'wset', lm if masked else 'none']}
+                    'layout': [lf, lw if 'waveimg' in kwc else 'wset', lm if masked else 'none'],
+                    'ntype': [ftype, wdtype if 'waveimg' in kwc else 'wset', mtype if masked else 'none']}
             try:
-                r = filter_thru(arg, mask=(lay(mask.copy(), lm, fill=0) if masked else None), **kwc)
+                r = filter_thru(arg, mask=(lay(marg.astype(np.dtype(mtype)), lm, fill=0) if masked else None), **kwc)
                 r = np.asarray(r, dtype=float)
                 if r.shape != (nt, 5):
                     call['shapeok'] = False
@@ -677,7 +754,7 @@ def gen_filter_history(seed, idx):
                                                                   float(scale[t]) * 1e-12)
     return {'type': 'filter', 'gen': {'type': 'filter', 'idx': idx, 'seed': seed}, 'cfg': cfg, 'nt': nt, 'nx': nx, 'garbage': str(garbage),
             'nq': nq, 'overlap': overlap, 'fluxes': fluxes_meta,
-            'piecewise': bool(piecewise), 'sliver': sliver, 'lin': lin, 'meq': [{'x': 1, 'y': 5}],
+            'piecewise': bool(piecewise), 'sliver': sliver, 'intgrid': bool(intgrid), 'intwave': wdtype, 'lin': lin, 'meq': [{'x': 1, 'y': 5}],
             'calls': calls, 'combs': combs, 'd': d, 's': s}
 
 
@@ -687,17 +764,17 @@ GEN = {'wave': gen_wave_history, 'ab': gen_ab_history, 'filter': gen_filter_hist
 MIN_PER_HISTORY = {
     'wave': {'NoRaise': 8, 'InputKept': 8, 'AnswerForm': 4, 'Unchanged': 1, 'VacuumAboveAir': 3, 'AtGuard': 0,
              'AirVacAir': 1, 'VacAirVac': 1, 'KindInvariance': 2},
-    'ab': {'ABOffset': 5},
+    'ab': {'ABAnswers': 1, 'ABOffset': 3},
     'filter': {'FilterAnswers': 9, 'Linear': 2, 'ConstantInConstantOut': 2, 'WithinMinMax': 9, 'MaskedPixelsIrrelevant': 1},
 }
 
 
-def judge(ctx, hists, label):
+def judge(ctx, hists, label, floors=True):
     """Hand histories to Trace_FluxConv (one TLC run); returns ({index: why}, {law: instances})."""
     mins = {}
     for h in hists:
         for law, k in MIN_PER_HISTORY[h['type']].items():
-            mins[law] = mins.get(law, 0) + k
+            mins[law] = mins.get(law, 0) + (k if floors else 0)
     path = os.path.join(ctx.scratch, 'hist_%s.json' % label)
     with open(path, 'w') as fh:
         json.dump({'min': mins, 'hist': hists}, fh)
@@ -718,13 +795,147 @@ def judge(ctx, hists, label):
     return bad, totals
 
 
+def _set(h, key, i, j, q, val):
+    if q is None:
+        h[key][i - 1][j - 1] = val
+        h[key][j - 1][i - 1] = val
+    else:
+        h[key][i - 1][j - 1][q - 1] = val
+        h[key][j - 1][i - 1][q - 1] = val
+
+
+def falsify(h, k):
+    """Binding self-test: a copy of an ACCEPTED history in which ONE observed field is falsified beyond tolerance
+    (a discrepancy, a sign, a status flag, an answer form).  Returns (history, what) or None if nothing applies."""
+    h2 = json.loads(json.dumps(h))
+    if h['type'] == 'ab':
+        if not h2['obs']:
+            return None
+        o = h2['obs'][k % len(h2['obs'])]
+        if k % 2:
+            o['shift'] += 1
+            return h2, 'ab-shift+1'
+        o['resid'] = 5000
+        return h2, 'ab-resid'
+    if h['type'] == 'wave':
+        calls = h2['calls']
+        good = [j for j, e in enumerate(calls) if not e['raised'] and len(e['res']) == len(e['arg'])]
+        cls = [v['cls'] for v in h2['vals']]
+        for mode in [(k + t) % 6 for t in range(6)]:
+            if mode == 0 and calls:
+                calls[k % len(calls)]['kept'] = False
+                return h2, 'wave-input-modified'
+            if mode == 1 and good:
+                e = calls[good[k % len(good)]]
+                e['form'] = dict(e['form'], unit='um' if e['form']['unit'] != 'um' else 'A')
+                return h2, 'wave-answer-unit'
+            if mode == 2:
+                cand = [(j, p) for j in good for p in range(len(calls[j]['arg'])) if cls[calls[j]['arg'][p] - 1] != 'at']
+                if cand:
+                    j, p = cand[k % len(cand)]
+                    a, r = calls[j]['arg'][p], calls[j]['res'][p]
+                    if cls[a - 1] == 'below':
+                        _set(h2, 'd', a, r, None, 5000)
+                        h2['s'][a - 1][r - 1] = 1
+                    else:
+                        h2['s'][a - 1][r - 1] = -h2['s'][a - 1][r - 1]
+                    return h2, 'wave-element-relation'
+            if mode == 3:
+                cand = []
+                for j in good:
+                    if j + 1 in good and calls[j + 1]['arg'] == calls[j]['res'] and calls[j + 1]['fn'] != calls[j]['fn']:
+                        for p in range(len(calls[j]['arg'])):
+                            v = calls[j]['arg'][p] if calls[j]['fn'] == 'airtovac' else calls[j]['res'][p]
+                            if cls[v - 1] == 'above':
+                                cand.append((j, p))
+                if cand:
+                    j, p = cand[k % len(cand)]
+                    _set(h2, 'd', calls[j]['arg'][p], calls[j + 1]['res'][p], None, CAP)
+                    return h2, 'wave-round-trip'
+            if mode == 4:
+                cand = []
+                for i in good:
+                    for j in good:
+                        if i < j and calls[i]['fn'] == calls[j]['fn']:
+                            for p1, v in enumerate(calls[i]['arg']):
+                                if cls[v - 1] != 'at' and v in calls[j]['arg']:
+                                    cand.append((i, j, p1, calls[j]['arg'].index(v)))
+                if cand:
+                    i, j, p1, p2 = cand[k % len(cand)]
+                    _set(h2, 'd', calls[i]['res'][p1], calls[j]['res'][p2], None, CAP)
+                    return h2, 'wave-kind-invariance'
+            if mode == 5 and calls:
+                calls[k % len(calls)]['raised'] = True
+                return h2, 'wave-raised'
+        return None
+    # filter
+    calls = h2['calls']
+    good = [j for j, e in enumerate(calls) if not e['raised'] and e['shapeok']]
+    slots = [q + 1 for q, o in enumerate(h2['overlap']) if o]
+    for mode in [(k + t) % 5 for t in range(5)]:
+        if mode == 4 and calls:
+            calls[k % len(calls)]['shapeok'] = False
+            return h2, 'filter-shape'
+        if not slots or not good:
+            continue
+        q = slots[k % len(slots)]
+        if mode == 0:
+            cand = [j for j in good if h2['fluxes'][calls[j]['flux'] - 1]['const']]
+            if cand:
+                e = calls[cand[k % len(cand)]]
+                _set(h2, 'd', e['res'], h2['fluxes'][e['flux'] - 1]['cres'], q, CAP)
+                return h2, 'filter-constant'
+        if mode == 1:
+            e = calls[good[k % len(good)]]
+            lo = h2['fluxes'][e['flux'] - 1]['mlo' if e['masked'] else 'lo']
+            _set(h2, 'd', lo, e['res'], q, CAP)
+            h2['s'][lo - 1][e['res'] - 1][q - 1] = -1
+            return h2, 'filter-below-min'
+        if mode == 2:
+            r = {calls[j]['flux']: calls[j]['res'] for j in good if calls[j]['masked']}
+            if all(f in r for f in (h2['meq'][0]['x'], h2['meq'][0]['y'])):
+                _set(h2, 'd', r[h2['meq'][0]['x']], r[h2['meq'][0]['y']], q, CAP)
+                return h2, 'filter-masked-pixels'
+        if mode == 3:
+            l = h2['lin'][0]
+            r = {calls[j]['flux']: calls[j]['res'] for j in good if not calls[j]['masked']}
+            cb = [c for c in h2['combs'] if l['x'] in r and l['y'] in r and c['x'] == r[l['x']] and c['y'] == r[l['y']]]
+            if l['z'] in r and cb:
+                _set(h2, 'd', r[l['z']], cb[0]['val'], q, CAP)
+                return h2, 'filter-linear'
+    return None
+
+
+def binding_selftest(ctx, accepted, n):
+    """Non-vacuity of Trace_FluxConv (the equivalent of core.binding_selftest for this module's {min, hist} trace
+    format): every falsified history must be rejected, else MachineryError (exit 2)."""
+    fals, whats = [], {}
+    for k, h in enumerate(accepted):
+        if len(fals) >= n:
+            break
+        f = falsify(h, k)
+        if f is not None:
+            fals.append(f[0])
+            whats[f[1]] = whats.get(f[1], 0) + 1
+    if not fals:
+        raise core.MachineryError('binding self-test of Trace_FluxConv: nothing to falsify')
+    bad, _ = judge(ctx, fals, 'selftest', floors=False)
+    missed = [k for k in range(len(fals)) if k not in bad]
+    ctx.cov['parts']['selftest_histories'] = {'corrupted_records': len(fals), 'rejected': len(bad), 'by_field': whats}
+    if missed:
+        h = fals[missed[0]]
+        raise core.MachineryError('binding self-test of Trace_FluxConv: %d of %d falsified histories were accepted, e.g. %s' % (
+            len(missed), len(fals), {k: v for k, v in h.items() if k not in ('d', 's', 'vals')}))
+
+
 def describe(h, law, wit):
     """Human-readable account of one failing law instance (wit = TLC's witness tuple, 1-based)."""
     try:
         if h['type'] == 'wave':
             e = h['calls'][wit[0] - 1]
             arg = [h['lams'][v - 1] for v in e['arg']]
-            s = '%s(%s%s %s)' % (e['fn'], e['kind'], '' if e.get('layout', 'plain') == 'plain' else '/' + e['layout'], arg)
+            s = '%s(%s%s%s %s)' % (e['fn'], e['kind'], '' if e.get('layout', 'plain') == 'plain' else '/' + e['layout'],
+                                   '' if e.get('width', 'na') == 'na' else '/' + e['width'], arg)
             if e['raised']:
                 return s + ' raised ' + e['exc']
             s += ' -> %s' % [h['lams'][v - 1] for v in e['res']]
@@ -734,11 +945,13 @@ def describe(h, law, wit):
                                             [h['lams'][v - 1] for v in e2['res']])
             return s + ' instance %s' % (wit,)
         if h['type'] == 'ab':
+            if law == 'ABAnswers':
+                return 'sdssflux2ab layout=%s ntype=%s form=%s: %s' % (h.get('layout'), h.get('ntype'), h['form'], h['exc'])
             o = h['obs'][wit[0] - 1]
             return 'sdssflux2ab layout=%s form=%s band=%d measured shift %s milli-mag (resid %s nano-mag) %s' % (
                 h.get('layout'), o['form'], o['band'], o['shift'], o['resid'], h['exc'])
-        return 'filter_thru cfg=%s%s nt=%d nx=%d garbage=%s instance %s calls=%s' % (
-            h['cfg'], ' piecewise-sampled' if h.get('piecewise') else (' sliver ' + '/'.join(h['sliver']) if h.get('sliver') else ''),
+        return 'filter_thru cfg=%s%s%s%s nt=%d nx=%d garbage=%s instance %s calls=%s' % (
+            h['cfg'], ' integer-fluxes' if h.get('intgrid') else '', '' if h.get('intwave', 'float64') == 'float64' else ' waveimg:' + h['intwave'], ' piecewise-sampled' if h.get('piecewise') else (' sliver ' + '/'.join(h['sliver']) if h.get('sliver') else ''),
             h['nt'], h['nx'], h['garbage'], wit,
             [(c['flux'], c['masked'], c['exc']) for c in h['calls'] if c['exc']] or '')
     except Exception as ex:      # description only
@@ -746,6 +959,11 @@ def describe(h, law, wit):
 
 
 def hist_finding(h, law, wit):
+    if h['type'] == 'filter' and law != 'FilterAnswers':
+        # D-C19-2: an instance that involves a call whose flux image had an integer dtype
+        idx = {'ConstantInConstantOut': wit[:1], 'WithinMinMax': wit[:1], 'Linear': wit[1:4], 'MaskedPixelsIrrelevant': wit[1:3]}[law]
+        if any(h['calls'][j - 1].get('ntype', ['float64'])[0] != 'float64' for j in idx):
+            return 'D-C19-2'
     if h['type'] == 'wave' and law == 'NoRaise':
         e = h['calls'][wit[0] - 1]
         return classify(e['kind'], h['vals'][e['arg'][0] - 1]['cls'], e['exc'])
@@ -783,13 +1001,22 @@ def run(ctx):
                 'replayed with several concrete wavelength draws; non-trivial = distinct (fn, kind, pattern) with an '
                 'element at/above the guard, AB cases with level != 0, and recorded histories that triggered a law '
                 'relating two calls; recorded = seeded histories judged by Trace_FluxConv')
-    ctx.assumptions = ['element types: float64, integer (Python int, int32/int64 scalars and arrays, Quantity from integer arrays; '
+    ctx.assumptions = ['element types: float64, integer (Python int; numpy scalars, 0-d and 1-d arrays and Quantity sources of width '
+                       'int64/int32/int16/uint16/uint8 as the wavelengths fit - a wavelength >= 2000 A never fits 8 bits; '
                        'exact inputs, full 1e-6 A tolerance) and float32 (answers compared to the float64 answer within 8 float32 '
                        'ulps: a single-precision input cannot hold 1e-6 A at 5000 A; the answer may be float32 or float64)',
                        'nm / um callers: wavelengths within 1e-9 A of 2000 A count as "at the guard" (open in the statement)',
                        'memory layouts (read-only via setflags / frombuffer, every-second-element views, byte-swapped, transposed '
                        'Fortran-ordered 2-d views) are rotated by seed over array arguments of all four functions; Quantity arguments '
-                       'only read-only and strided; quick replays a seed-rotated third of the non-plain MC states',
+                       'only read-only and strided; quick replays a seed-rotated quarter of the non-plain / non-64-bit MC states',
+                       'sdssflux2ab with an integer-typed array (integral magnitudes / fluxes): the offsets are not integral; a clear '
+                       'TypeError (what pydl raises: in-place float arithmetic on an integer copy) or a floating-point answer with the '
+                       'right offset are both accepted, a truncated answer is not (the statement does not say which)',
+                       'filter_thru numeric types: integral fluxes are handed over per call as float64 or any fitting integer width, '
+                       'masks as int8..int64 / uint8 / bool; integer-valued wavelength images (int16/uint16/int32/int64) keep ONE type '
+                       'within a history, because the statement relates calls on one wavelength solution (observed, not judged: '
+                       'int16/uint16 wavelength images make log10 run in float32, band fluxes then differ by ~3e-8 relative from '
+                       'those of the float64 image of the same values)',
                        'filter_thru: every trace keeps >= 2 unmasked pixels; laws demanded only in bands the trace overlaps: some pixel '
                        'inside the open support of the tabulated response (last tabulated zero before / first after the positive '
                        'samples) with a 0.3 A guard (3.5 A at the blue end with toair); sliver overlaps of 1-20 A are included; '
@@ -800,7 +1027,7 @@ def run(ctx):
     rng = random.Random(ctx.seed)
     cfg = 'MC_FluxConv_quick.cfg' if ctx.quick else 'MC_FluxConv_thorough.cfg'
     r = ctx.tlc('MC_FluxConv.tla', cfg, dump=True, timeout=900)
-    reps = 3 if ctx.quick else 6
+    reps = 2 if ctx.quick else 5
     nstate = 0
     raised_seen = {}
     nviol_m2 = [0]
@@ -823,16 +1050,16 @@ def run(ctx):
         exp = {'raises': exp['raises'], 'form': exp['form'], 'len': exp['len'], 'precision': exp['precision'],
                'allowed': [sorted(a) for a in exp['allowed']]}
         if any(p != 'below' for p in c['pat']):
-            ctx.nontriv((c['fn'], c['kind'], tuple(c['pat']), c['layout']))
+            ctx.nontriv((c['fn'], c['kind'], tuple(c['pat']), c['layout'], c['width']))
         nrep = reps
-        if c['layout'] != 'plain':
-            # same values, other memory layout: one draw; quick replays a seed-rotated third of these states
+        if c['layout'] != 'plain' or c['width'] not in ('na', 'int64'):
+            # same values, other memory layout / integer width: one draw; quick replays a seed-rotated quarter of these states
             nrep = 1
-            if ctx.quick and (zlib.crc32(repr(sorted(c.items())).encode()) + ctx.seed) % 3:
+            if ctx.quick and (zlib.crc32(repr(sorted(c.items())).encode()) + ctx.seed) % 4:
                 skipped_layout[0] += 1
                 continue
         for rep in range(nrep):
-            lams = [class_value(rng, cls, unit_of(c['kind']) == 'A', numtype(c['kind'])) for cls in c['pat']]
+            lams = [class_value(rng, cls, unit_of(c['kind']) == 'A', numtype(c['kind']), WMAX[c['width']]) for cls in c['pat']]
             bad, o = run_wave_case(c, exp, lams)
             ctx.evaluated(2 + 2 * len(lams), 'replay-wave')
             ctx.validated()
@@ -840,46 +1067,63 @@ def run(ctx):
                 ctx.sample({'call': c, 'lams': lams, 'expected': exp, 'observed': {k: o[k] for k in ('raised', 'form', 'vals', 'kept')}})
             if bad:
                 f = classify(c['kind'], c['pat'][0], o['exc']) if o['raised'] else None
-                key = (c['fn'], c['kind'], tuple(c['pat']), c['layout'], f)
+                key = (c['fn'], c['kind'], tuple(c['pat']), c['layout'], c['width'], f)
                 key2 = (c['fn'], c['kind'], f, bad[0].split()[0])
                 raised_seen[key] = raised_seen.get(key, 0) + 1
                 raised_seen[key2] = raised_seen.get(key2, 0) + 1
                 nviol_m2[0] += 1
                 if raised_seen[key] > 1 or raised_seen[key2] > 2:
                     continue          # same case / same kind and symptom: a few replay files are enough
-                ctx.violation({'what': '%s(%s/%s %s) pattern %s: %s' % (c['fn'], c['kind'], c['layout'], ['%.17g' % v for v in lams],
+                ctx.violation({'what': '%s(%s/%s/%s %s) pattern %s: %s' % (c['fn'], c['kind'], c['layout'], c['width'], ['%.17g' % v for v in lams],
                                                                       c['pat'], '; '.join(bad)[:220]),
                                'call': c, 'lams': ['%.17g' % v for v in lams], 'expected': exp}, finding=f)
     if skipped_layout[0]:
-        ctx.sample({'non_plain_layout_states_not_replayed_in_quick (seed-rotated 2/3)': skipped_layout[0]}, limit=99)
+        ctx.sample({'non_plain_layout_states_not_replayed_in_quick (seed-rotated 3/4)': skipped_layout[0]}, limit=99)
     if nviol_m2[0]:
         ctx.sample({'replayed_wave_draws_not_conforming': nviol_m2[0]}, limit=99)
     # ---- code -> spec --------------------------------------------------------------------
-    nwave, nab, nfilt = (160, 45, 28) if ctx.quick else (1600, 300, 280)
+    nwave, nab, nfilt = (150, 44, 24) if ctx.quick else (1400, 300, 260)
     reported = {}
     totals = {}
+    accepted = {'wave': [], 'ab': [], 'filter': []}
+
+    want = {'wave': 60, 'ab': 44, 'filter': 10} if ctx.quick else {'wave': 150, 'ab': 60, 'filter': 40}
+    sampled = set()
+
+    def process(hs, label):
+        bad, tot = judge(ctx, hs, label)
+        for law, k in tot.items():
+            totals[law] = totals.get(law, 0) + k
+        for j, h in enumerate(hs):
+            kind = h['type']
+            if j not in bad and len(accepted[kind]) < want[kind]:
+                accepted[kind].append(h)
+            ctx.validated(len(h.get('calls', [1])))
+            ctx.nontriv((kind, h['gen']['idx']))
+            if kind not in sampled:
+                sampled.add(kind)
+                ctx.sample({'history': {k: v for k, v in h.items() if k not in ('d', 's')} if kind != 'filter'
+                            else {k: v for k, v in h.items() if k in ('cfg', 'nt', 'nx', 'sliver', 'intgrid', 'intwave', 'overlap',
+                                                                      'calls', 'lin', 'meq')}})
+        for kind in ('wave', 'ab', 'filter'):
+            laws = MIN_PER_HISTORY[kind]
+            if any(h['type'] == kind for h in hs):
+                ctx.evaluated(sum(tot.get(law, 0) for law in laws), 'law-instances-' + kind)
+        report_histories(ctx, hs, bad, reported)
 
     def batch(kind, n, chunk):
         for base in range(0, n, chunk):
-            hs = [GEN[kind](ctx.seed, k) for k in range(base, min(n, base + chunk))]
-            bad, tot = judge(ctx, hs, '%s%d' % (kind, base))
-            for law, k in tot.items():
-                totals[law] = totals.get(law, 0) + k
-            ctx.evaluated(sum(tot.values()), 'law-instances-' + kind)
-            ncalls = sum(len(h.get('calls', [1])) for h in hs)
-            ctx.validated(ncalls)
-            for j, h in enumerate(hs):
-                ctx.nontriv((kind, h['gen']['idx']))
-            report_histories(ctx, hs, bad, reported)
-            if base == 0:
-                h = hs[0]
-                ctx.sample({'history': {k: v for k, v in h.items() if k not in ('d', 's')} if kind != 'filter'
-                            else {k: v for k, v in h.items() if k in ('cfg', 'nt', 'nx', 'sliver', 'overlap', 'calls', 'lin', 'meq')}})
+            process([GEN[kind](ctx.seed, k) for k in range(base, min(n, base + chunk))], '%s%d' % (kind, base))
 
-    batch('wave', nwave, 400)
-    batch('ab', nab, 1000)
-    batch('filter', nfilt, 40)
+    if ctx.quick:       # one TLC run for all recorded histories
+        process([GEN[kind](ctx.seed, k) for kind, n in (('wave', nwave), ('ab', nab), ('filter', nfilt)) for k in range(n)], 'all')
+    else:
+        batch('wave', nwave, 400)
+        batch('ab', nab, 1000)
+        batch('filter', nfilt, 40)
     ctx.sample({'law_instances_judged_by_TLC': totals}, limit=99)
+    pool = accepted['wave'] + accepted['ab'] + accepted['filter']
+    binding_selftest(ctx, pool, len(pool))
     ctx.exhaustive = False
 
 
